@@ -754,6 +754,8 @@ void opStream(const Op& op, Ctx& cx) {
       chunks.push_back(size_t(strtoull(tok.c_str(), nullptr, 10)));
   }
   std::string tailA = op.qstr("tail"), tailB = op.qstr("tail2");
+  bool hasFilter = op.has("filter");
+  Val filterModel = hasFilter ? parseText(op.str("filter")) : Val::boolean(true);
   struct Piece {
     size_t start, valueStart, end;
     Val v;
@@ -818,17 +820,31 @@ void opStream(const Op& op, Ctx& cx) {
     SimCustomReader cr(wire, st);
     SimArduinoStream as(wire, st);
     SimAllocator alloc(7, nullptr);
+    SimAllocator falloc(8, nullptr);
     std::vector<std::string> tr;
     {
+      JsonDocument fdoc(&falloc);
+      if (hasFilter)
+        buildFilterDoc(fdoc, filterModel);
+      DeserializationOption::Filter flt(fdoc.as<JsonVariantConst>());
       JsonDocument doc(&alloc);
       auto position = [&]() -> size_t { return kind == RK::IStream ? sb.position() : kind == RK::Custom ? cr.position() : as.position(); };
       for (size_t j = 0; j < pieces.size(); j++) {
-        DeserializationError err = mp ? (kind == RK::IStream ? deserializeMsgPack(doc, in)
-                                         : kind == RK::Custom ? deserializeMsgPack(doc, cr)
-                                                              : deserializeMsgPack(doc, as))
-                                      : (kind == RK::IStream ? deserializeJson(doc, in)
-                                         : kind == RK::Custom ? deserializeJson(doc, cr)
-                                                              : deserializeJson(doc, as));
+        DeserializationError err = DeserializationError::Ok;
+        if (hasFilter)
+          err = mp ? (kind == RK::IStream ? deserializeMsgPack(doc, in, flt)
+                      : kind == RK::Custom ? deserializeMsgPack(doc, cr, flt)
+                                           : deserializeMsgPack(doc, as, flt))
+                   : (kind == RK::IStream ? deserializeJson(doc, in, flt)
+                      : kind == RK::Custom ? deserializeJson(doc, cr, flt)
+                                           : deserializeJson(doc, as, flt));
+        else
+          err = mp ? (kind == RK::IStream ? deserializeMsgPack(doc, in)
+                      : kind == RK::Custom ? deserializeMsgPack(doc, cr)
+                                           : deserializeMsgPack(doc, as))
+                   : (kind == RK::IStream ? deserializeJson(doc, in)
+                      : kind == RK::Custom ? deserializeJson(doc, cr)
+                                           : deserializeJson(doc, as));
         size_t pos = position();
         const Piece& pc = pieces[j];
         count("stream.calls");
@@ -838,7 +854,8 @@ void opStream(const Op& op, Ctx& cx) {
                                            ", wire " + hexdump(wire, 120) + ")");
         Val got = extract(doc.as<JsonVariantConst>());
         std::string why;
-        if (!(mp ? sameValue(pc.v, got) : looselyEqual(pc.v, got, &why)))
+        Val want = hasFilter ? project(pc.v, filterModel) : pc.v;
+        if (!(mp ? sameValue(want, got) : looselyEqual(want, got, &why)))
           violate("C16:wrong-document", "call #" + std::to_string(j) + " returned " + toText(got).substr(0, 80) +
                                             " instead of " + toText(pc.v).substr(0, 80));
         size_t allowedEnd = pc.end + ((!mp && pc.number) ? 1 : 0);
@@ -862,6 +879,7 @@ void opStream(const Op& op, Ctx& cx) {
       }
     }
     alloc.expectEmpty("C06:leak-at-destruction", "stream scenario");
+    falloc.expectEmpty("C06:leak-at-destruction", "stream scenario (filter)");
     if (st.callsAfterEnd)
       violate("C03:read-after-end", "reader called after it had reported the end of input (stream scenario)");
     transcripts.push_back(tr);
@@ -1394,6 +1412,17 @@ Plan generate(const std::string& mode, uint64_t seed, uint64_t run) {
           b = "[0," + b + "]";  // the same, nested
         }
       }
+    } else if (sel < 84) {
+      // exponents far beyond any range: the literal is valid, the value is +-infinity or +-0
+      static const char* lits[] = {"1e4294967297", "-1e4294967297", "1e-4294967297", "5e4294967298", "1e2147483649",
+                                   "1e99999999999999999999", "-3.5e-2147483650", "1E+4294967300", "12e-99999999999"};
+      static const double vals[] = {INFINITY, -INFINITY, 0.0, INFINITY, INFINITY, INFINITY, -0.0, INFINITY, 0.0};
+      size_t pick = size_t(r.below(9));
+      b = std::string("[") + lits[pick] + "]";
+      Val want = Val::arr();
+      want.a.push_back(Val::flt(float(vals[pick])));
+      op.set("expect", "Ok").set("value", toText(want)).set("loose", 1).set("vcls", "C10:wrong-value");
+      why = "numeric literal with an enormous exponent";
     } else if (sel < 88) {
       // keyword with a wrong letter
       static const char* bad[] = {"[trxe]", "[fals]", "[nul]", "{\"a\":tru }", "[nulL]", "[True]", "[1,flase]"};
@@ -1713,8 +1742,12 @@ Plan generate(const std::string& mode, uint64_t seed, uint64_t run) {
       } else if (sel < 60) {
         v = Val::arr();
         v.a.push_back(genScalar(r, gs));
-      } else if (sel < 70)
-        v = Val::str(genString(r, gs, false));
+      } else if (sel < 70) {
+        std::string str = genString(r, gs, false);
+        if (r.chance(1, 3))
+          str += r.chance(1, 2) ? "\\" : "\\\"";  // ends with a backslash / backslash + quote
+        v = Val::str(str);
+      }
       else if (sel < 80)
         v = r.chance(1, 2) ? Val::boolean(r.chance(1, 2)) : Val::null();
       else if (sel < 92)
@@ -1749,6 +1782,11 @@ Plan generate(const std::string& mode, uint64_t seed, uint64_t run) {
         t1 = std::string("\x93\x01", 2);
     }
     op.setq("tail", t1).setq("tail2", t2);
+    if (r.chance(1, 3)) {
+      // every call filtered: discarded parts are skipped, not parsed, and must be consumed exactly too
+      static const char* fs[] = {"f", "{\"id\":t}", "[t]", "{\"v\":t,\"*\":f}", "{}", "[]", "[{\"id\":t}]", "n"};
+      op.set("filter", r.chance(2, 3) ? std::string(fs[r.below(8)]) : toText(genFilter(r, &docs.a[0], 0)));
+    }
     p.ops.push_back(op);
   } else if (mode == "faultenum") {
     GenOpts gf = go;
